@@ -130,7 +130,20 @@ ExprMenu == <<
   CallTC("f", <<Col("a")>>), Un("Minus", Num("5")), Num("0.5"),
   Bin("Star", Paren(Bin("Plus", Col("a"), Num("1"))), Col("b")),
   Call("iff", <<Bin("GT", Col("a"), Num("1")), Str("y"), Str("n")>>),
-  [k |-> "QIdent", parts |-> <<Id("x"), QId("y z"), Id("w")>>] >>
+  [k |-> "QIdent", parts |-> <<Id("x"), QId("y z"), Id("w")>>],
+  \* lists of every small length
+  InE(Col("a"), <<Num("1")>>), InE(Col("a"), <<Num("1"), Num("2"), Col("b"), Str("s")>>),
+  InE(Col("a"), <<Num("1"), Col("b"), Num("2")>>),
+  Call("f", <<>>), Call("f", <<Col("a"), Col("b"), Num("1"), Str("s")>>), Call("f", <<Col("a"), Col("b"), Col("c")>>),
+  Call("strcat", <<Col("a")>>), Call("strcat", <<Col("a"), Col("b"), Str("-"), Col("c")>>),
+  Call("countif", <<Bin("GT", Col("a"), Num("1"))>>), Call("count", <<>>),
+  Call("isnull", <<Col("a")>>), Call("isnotnull", <<Bin("Plus", Col("a"), Num("1"))>>),
+  Call("tolower", <<Col("a")>>), Call("toupper", <<Call("strcat", <<Col("a"), Col("b")>>)>>),
+  Bin("CaseInsensitiveEq", Col("a"), Str("A")), Bin("CaseInsensitiveNE", Call("tolower", <<Col("a")>>), Col("b")),
+  Call("iif", <<Col("a"), Col("b"), Un("Minus", Col("c"))>>),
+  Bin("And", Call("not", <<Col("a")>>), Call("isnull", <<Col("b")>>)),
+  Bin("Eq", Call("not", <<Col("a")>>), Col("b")),
+  Bin("Minus", Bin("Minus", Col("a"), Col("b")), Bin("Minus", Col("c"), Num("1"))) >>
 
 Positions == {"where", "project", "extendNamed", "extendBare", "sumAgg", "sumAggBare", "sumKey", "sumKeyBare",
               "sort", "sort2", "take", "topN", "topBy", "joinOn", "joinOn2", "let", "renderVal",
@@ -500,6 +513,87 @@ StressToks(c) ==
 
 ---------------------------------------------------------------------------
 
+(* family scope: let bindings and parameters (C06)                         *)
+(* ch = <<setup, value shape, use, position>>                              *)
+
+ScopeSetups == {"single", "chain", "redef", "overparam", "paramonly", "paramchain", "after", "unused", "shadowlater", "collide"}
+ValueShapes == {"lit", "neg", "bin", "call", "ref", "negref", "paren", "str", "const"}
+ShapesFor(setup) ==
+  CASE setup \in {"chain", "shadowlater", "paramchain"} -> ValueShapes
+    [] setup = "paramonly" -> {"lit"}
+    [] OTHER -> ValueShapes \ {"ref", "negref"}
+LetValue(shape) ==
+  CASE shape = "lit" -> Num("3") [] shape = "neg" -> Un("Minus", Num("5")) [] shape = "bin" -> Bin("Plus", Num("1"), Num("2"))
+    [] shape = "call" -> Call("f", <<Num("1")>>) [] shape = "ref" -> Col("m") [] shape = "negref" -> Un("Minus", Col("m"))
+    [] shape = "paren" -> Paren(Bin("Minus", Num("1"), Num("2"))) [] shape = "str" -> Str("s") [] shape = "const" -> Col("true")
+\* items before the query, items after it, parameters (name -> snippet)
+SetupBefore(setup, shape) ==
+  LET V == LetValue(shape) IN
+  CASE setup \in {"single", "overparam", "paramchain", "after", "collide"} -> <<Let("n", V)>>
+    [] setup = "chain" -> <<Let("m", Num("1")), Let("n", V)>>
+    [] setup = "redef" -> <<Let("n", Num("9")), Let("n", V)>>
+    [] setup = "paramonly" -> <<>>
+    [] setup = "unused" -> <<Let("u", Num("5")), Let("n", V)>>
+    [] setup = "shadowlater" -> <<Let("m", Num("1")), Let("n", V), Let("m", Num("2"))>>
+SetupAfter(setup) == IF setup = "after" THEN <<Let("n", Num("9")), Let("q", Col("nonsense"))>> ELSE <<>>
+SetupParams(setup) ==
+  CASE setup \in {"overparam", "paramonly"} -> <<[n |-> "n", s |-> "$1"]>>
+    [] setup = "paramchain" -> <<[n |-> "m", s |-> "$2"]>>
+    [] setup = "collide" -> <<[n |-> "a", s |-> "$3"], [n |-> "true", s |-> "$4"]>>
+    [] OTHER -> <<>>
+
+ScopeUses == {"bare", "plus", "rsub", "neg", "mul", "idxbase", "idx", "insubj", "inlist", "arg", "eq", "cmpl", "notarg",
+              "strcat", "paren", "quoted", "qual1", "qual2", "fname", "const"}
+UseExpr(u) ==
+  LET n == Col("n") IN
+  CASE u = "bare" -> n [] u = "plus" -> Bin("Plus", n, Num("1")) [] u = "rsub" -> Bin("Minus", Num("1"), n)
+    [] u = "neg" -> Un("Minus", n) [] u = "mul" -> Bin("Star", Num("2"), n) [] u = "idxbase" -> Index(n, Num("1"))
+    [] u = "idx" -> Index(Col("b"), n) [] u = "insubj" -> InE(n, <<Num("1"), Num("2")>>)
+    [] u = "inlist" -> InE(Col("a"), <<n, Num("1")>>) [] u = "arg" -> Call("f", <<n, Col("a")>>)
+    [] u = "eq" -> Bin("Eq", Col("a"), n) [] u = "cmpl" -> Bin("LT", n, Col("a")) [] u = "notarg" -> Call("not", <<n>>)
+    [] u = "strcat" -> Call("strcat", <<n, Str("z")>>) [] u = "paren" -> Bin("Star", Paren(n), Num("2"))
+    [] u = "quoted" -> Bin("Plus", [k |-> "QIdent", parts |-> <<QId("n")>>], Num("1"))
+    [] u = "qual1" -> Bin("Plus", Qual("x", "n"), Num("1")) [] u = "qual2" -> Bin("Plus", Qual("n", "x"), Num("1"))
+    [] u = "fname" -> Call("n", <<Num("1")>>)
+    [] u = "const" -> Bin("And", Col("true"), Bin("Eq", Col("a"), n))
+ScopePositions == {"where", "project", "extendNamed", "sumAgg", "sort", "take", "topN", "topBy", "joinOn2", "arg"}
+
+ScopeChoices(c) ==
+  CASE Len(c) = 0 -> ScopeSetups
+    [] Len(c) = 1 -> ShapesFor(c[1])
+    [] Len(c) = 2 -> ScopeUses
+    [] Len(c) = 3 -> IF c[3] \in {"bare", "neg", "eq"} THEN ScopePositions ELSE {"where"}
+    [] OTHER -> {}
+ScopeQuery(c) ==
+  LET e == Canon(UseExpr(c[3])) IN
+  CASE c[4] = "where" -> Tab("T", <<Where(e)>>)
+    [] c[4] = "project" -> Tab("T", <<Project(<<PCol("p", e), PCol("q", None)>>)>>)
+    [] c[4] = "extendNamed" -> Tab("T", <<Extend(<<ECol(Id("p"), e)>>)>>)
+    [] c[4] = "sumAgg" -> Tab("T", <<Summarize(<<ECol(Id("p"), Call("sum", <<e>>))>>, <<ECol(None, Col("b"))>>, FALSE)>>)
+    [] c[4] = "sort" -> Tab("T", <<Sort(<<TermD(e)>>)>>)
+    [] c[4] = "take" -> Tab("T", <<Take(e)>>)
+    [] c[4] = "topN" -> Tab("T", <<Top(e, TermD(Col("b")))>>)
+    [] c[4] = "topBy" -> Tab("T", <<Top(Num("3"), TermD(e))>>)
+    [] c[4] = "joinOn2" -> Tab("T", <<Join(Id("inner"), Tab("B", <<>>), <<Col("k"), Canon(Bin("Eq", Qual("$left", "a"), e))>>)>>)
+    [] c[4] = "arg" -> Tab("T", <<Where(Call("g", <<Num("1"), e>>))>>)
+\* the expression whose value is compared, per position (sum(e) for sumAgg, the whole condition for joinOn2)
+ScopeExpr(c) ==
+  LET e == Canon(UseExpr(c[3])) IN
+  CASE c[4] = "sumAgg" -> Call("sum", <<e>>)
+    [] c[4] = "joinOn2" -> Canon(Bin("Eq", Qual("$left", "a"), e))
+    [] OTHER -> e
+ScopeItems(c) == SetupBefore(c[1], c[2]) \o <<ScopeQuery(c)>> \o SetupAfter(c[1])
+\* the same program without the bindings that must not matter (unused, after the query)
+ScopeAlt(c) ==
+  CASE c[1] = "after" -> SetupBefore(c[1], c[2]) \o <<ScopeQuery(c)>>
+    [] c[1] = "unused" -> <<Let("n", LetValue(c[2])), ScopeQuery(c)>>
+    [] OTHER -> <<>>
+ScopeSc(c) == [params |-> SetupParams(c[1]),
+               lets |-> [i \in DOMAIN SetupBefore(c[1], c[2]) |->
+                           [n |-> SetupBefore(c[1], c[2])[i].name.name, x |-> SetupBefore(c[1], c[2])[i].x]]]
+
+---------------------------------------------------------------------------
+
 \* redundant parentheses around every operand (C01: they only change grouping)
 RECURSIVE ParenAll(_)
 PA(e) == IF e.k \in {"QIdent", "Lit", "Paren"} THEN ParenAll(e) ELSE Paren(ParenAll(e))
@@ -514,15 +608,16 @@ ParenAll(e) ==
 Styled(style, e) == IF style = "all" THEN Paren(Canon(ParenAll(e))) ELSE Canon(e)
 
 \* the designated expression of the expression families and where it sits
-ExprFamilies == {"exprpairs", "exprtriples", "unary", "positions", "deep"}
+ExprFamilies == {"exprpairs", "exprtriples", "unary", "positions", "deep", "scope"}
 ExprOf(fam, c) ==
   CASE fam = "exprpairs" -> Canon(PairExpr(c))
     [] fam = "exprtriples" -> Styled(c[5], TripleExpr(c))
     [] fam = "unary" -> Styled(c[5], UnaryExpr(c))
     [] fam = "positions" -> Canon(ExprMenu[c[1]])
     [] fam = "deep" -> Canon(Decode(c)[1])
+    [] fam = "scope" -> ScopeExpr(c)
 PosOf(fam, c) ==
-  CASE fam = "unary" -> "extendNamed" [] fam = "positions" -> c[2] [] OTHER -> "where"
+  CASE fam = "unary" -> "extendNamed" [] fam = "positions" -> c[2] [] fam = "scope" -> c[4] [] OTHER -> "where"
 
 ChoicesOf(fam, c) ==
   CASE fam = "exprpairs" -> PairsChoices(c)
@@ -535,6 +630,7 @@ ChoicesOf(fam, c) ==
     [] fam = "deep" -> DeepChoices(c)
     [] fam = "plant" -> PlantChoices(c)
     [] fam = "stress" -> StressChoices(c)
+    [] fam = "scope" -> ScopeChoices(c)
 
 BuildOf(fam, c) ==
   CASE fam = "exprpairs" -> <<Tab("T", <<Where(Canon(PairExpr(c)))>>)>>
@@ -546,6 +642,7 @@ BuildOf(fam, c) ==
     [] fam = "statements" -> StatementItems(c)
     [] fam = "deep" -> <<Tab("T", <<Where(Canon(Decode(c)[1]))>>)>>
     [] fam = "plant" -> PlantItems(c)
+    [] fam = "scope" -> ScopeItems(c)
 
 \* does every program of the family compile (no documented rule broken)?
 CompilesOf(fam, c) ==
@@ -607,7 +704,7 @@ Spec == Init /\ [][Next]_gvars
 
 ---------------------------------------------------------------------------
 
-TreeFamilies == {"exprpairs", "exprtriples", "unary", "positions", "pipelines", "operators", "statements", "deep", "plant"}
+TreeFamilies == {"exprpairs", "exprtriples", "unary", "positions", "pipelines", "operators", "statements", "deep", "plant", "scope"}
 
 \* generated trees are exactly the trees the grammar dictates for their tokens
 GeneratedWellFormed ==
@@ -623,7 +720,9 @@ EmitCase ==
                                     xc |-> CompilesOf(Family, ch),
                                     ex |-> IF Family \in ExprFamilies
                                            THEN [pos |-> PosOf(Family, ch), e |-> ExprOf(Family, ch)]
-                                           ELSE [pos |-> "", e |-> None]]))
+                                           ELSE [pos |-> "", e |-> None],
+                                    sc |-> IF Family = "scope" THEN ScopeSc(ch) ELSE [params |-> <<>>, lets |-> <<>>],
+                                    alt |-> IF Family = "scope" THEN Toks(ScopeAlt(ch)) ELSE <<>>]))
     ELSE PrintT("CASE " \o ToJson([fam |-> Family, ch |-> ch,
                                     toks |-> IF Family = "corrupt" THEN CorruptToks(ch) ELSE StressToks(ch),
                                     xp |-> "open", xc |-> "open"]))
